@@ -14,6 +14,7 @@
 package listener
 
 import (
+	"io"
 	"net"
 	"time"
 )
@@ -27,7 +28,12 @@ type DummyUDPConn struct {
 	Fn func(b []byte, addr *net.UDPAddr) (int, error)
 }
 
+// Read hands out the datagram; once it is consumed the stream is at its end.
+// (Returning (0, nil) for ever made every handler that reads until an error spin.)
 func (dc *DummyUDPConn) Read(b []byte) (int, error) {
+	if len(dc.Buffer) == 0 && len(b) > 0 {
+		return 0, io.EOF
+	}
 	n := copy(b, dc.Buffer)
 	dc.Buffer = dc.Buffer[n:]
 	return n, nil
